@@ -10,7 +10,10 @@
    by (database exists, schema status, flags), written out below by hand);
 3. the oracles on synthetic observations: a correct outcome passes, each kind of wrong outcome is reported under the
    right clause;
-4. the model is *not* run against fakesnow here (that is the check).
+4. the model is *not* run against fakesnow here (that is the check);
+5. statement steps between connects (wave 2): the model adopts the catalog found after the statement, the option table
+   is applied to that catalog (a dropped schema is missing again: created again iff create_schema_on_connect), the
+   plan never puts two statements in a row, and the exemption of the differential "undisturbed" oracle.
 
 exit 0 = all passed, 1 = some expectation failed.
 """
@@ -312,6 +315,62 @@ live = FakeLive((F, F, "memory", "nothing"), [("db1", "s1")])
 fs_ = []
 c14.judge_probes([("db1", "s1")], live, (good[0], ("ok", (("DB1", "S1"),), "ok", ("DB1",))), (good[0],), "shape", fs_)
 expect([(c, k) for c, k, _ in fs_] == [("C14.context", "shape,first_create_table,want=e90105,got=ok")], f"context although the database does not exist: {fs_}")
+
+# ---------------------------------------------------------------------------------------------------------------------
+# 5. statement steps between connects: the prior state of the next connect is the catalog as it is then
+m = c14.Model((T, T, "fresh", "nothing"))
+e = m.connect("db1", "s1")
+expect(e["created_schema"] and m.enabled_statements() == ("drop_schema_q", "drop_schema_u"), f"after connect(db1,s1): {m.enabled_statements()}")
+m.adopt({"OTHER": m.cat["OTHER"], "DB1": {}})  # DROP SCHEMA db1.s1 happened
+expect(m.cat["DB1"] == {} and m.disk["DB1"] is m.cat["DB1"], "adopt works in place (disk and catalog stay one object)")
+expect(m.enabled_statements() == ("create_schema_q", "create_schema_u"), f"after the drop: {m.enabled_statements()}")
+expect(c14.shape(m, "DB1", "S1") == "cd=T,cs=T,db=exists,schema=missing", "the dropped schema is missing for the next connect")
+e = m.connect("DB1", "S1")
+expect((e["created_db"], e["created_schema"], e["has_db"], e["has_schema"]) == (F, T, T, T), f"a dropped schema is created again by the next connect: {e}")
+m = c14.Model((T, F, "memory", "database+schema"))
+m.connect("db1", "s1")
+m.adopt({"OTHER": m.cat["OTHER"], "DB1": {}})
+e = m.connect("db1", "s1")
+expect((e["created_schema"], e["has_db"], e["has_schema"]) == (F, T, F), f"create_schema_on_connect=False: the dropped schema stays away: {e}")
+expect(m.expected_probe(len(m.sessions) - 1)[0] == "e90106", "and the session has no current schema")
+m = c14.Model((T, T, "memory", "database+schema"))
+expect(m.enabled_statements() == ("drop_schema_q", "drop_table_q"), f"no later session yet: only qualified statements: {m.enabled_statements()}")
+m.connect("db1", None)
+expect(m.enabled_statements() == ("drop_schema_q", "drop_table_q", "drop_schema_u"), f"database-only session cannot drop an unqualified table: {m.enabled_statements()}")
+m.connect("db1", "s1")
+expect(set(m.enabled_statements()) == {"drop_schema_q", "drop_table_q", "drop_schema_u", "drop_table_u"}, "session on DB1.S1 can do all drops")
+m = c14.Model((F, F, "memory", "nothing"))
+m.connect("db1", "s1")
+expect(m.enabled_statements() == (), "no DB1: nothing to do")
+try:
+    m.adopt({"OTHER": {}})
+    m.adopt({"OTHER": {}, "DBX": {}})
+    expect(False, "a statement step that changes the set of databases is a harness error")
+except c14.core.HarnessError:
+    pass
+# plan: a statement is always followed by a connect, never by a statement
+q = c14.PLAN["quick"]
+expect(c14.successors(q[1], (("db1", "s1"),), ("drop_schema_q",)) == c14.CANON_ARGS + (("$", "drop_schema_q"),), "step 2 of quick")
+expect(c14.successors(q[2], (("db1", "s1"), ("$", "drop_schema_q")), ("create_schema_q",)) == c14.AFTER_STATEMENT_QUICK, "step 3 after a statement")
+expect(c14.successors(q[2], (("db1", "s1"), ("db1", None)), ("drop_schema_q",)) == (), "quick: no third step after two connects")
+t3 = c14.PLAN["thorough"][2]
+expect(c14.successors(t3, (("db1", "s1"), ("$", "drop_schema_q")), ()) == c14.CANON_ARGS and c14.successors(t3, (("db1", "s1"), ("db1", None)), ("drop_schema_q",)) == c14.CANON_ARGS, "thorough step 3")
+# differential 'undisturbed' oracle: a session whose schema was dropped and is created again by this connect is exempt
+live = FakeLive((T, T, "memory", "nothing"), [("db1", "s1"), ("DB1", "S1")])
+exp_ = {"database": "DB1", "schema": "S1", "created_db": F, "created_schema": T}
+rep_ = [("OTHER", "SO", ("OTHER", "SO")), ("DB1", "S1", ("DB1", "S1")), ("DB1", "S1", ("DB1", "S1"))]
+s0ok = ("ok", (("OTHER", "SO"),), "ok", ("OTHER",))
+lost = ("err:ProgrammingError:2003", (), "ok", ("DB1",))
+back = ("ok", (("DB1", "S1"),), "ok", ("DB1",))
+fs_ = []
+c14.judge_probes([("db1", "s1"), ("$", "drop_schema_q"), ("DB1", "S1")], live, (s0ok, back, back), (s0ok, lost), "shape", fs_, exp_, rep_)
+expect(fs_ == [], f"re-created schema found again by the earlier session is no disturbance: {fs_}")
+fs_ = []
+c14.judge_probes([("db1", "s1"), ("$", "drop_schema_q"), ("DB1", "S1")], live, (lost, back, back), (s0ok, lost), "shape", fs_, exp_, rep_)
+expect([(c, k) for c, k, _ in fs_] == [("C14.undisturbed", "shape,session=first,first_unqualified_statements")], f"first session is not exempt: {fs_}")
+fs_ = []
+c14.judge_probes([("db1", "s1"), ("db1", "s1")], live, (s0ok, lost, back), (s0ok, back), "shape", fs_, dict(exp_, created_schema=F), rep_)
+expect([(c, k) for c, k, _ in fs_] == [("C14.undisturbed", "shape,session=earlier,first_unqualified_statements")], f"nothing created -> earlier session must behave as before: {fs_}")
 
 print(f"{len(ROWS)} hand-written rows, {n} literal-table cells, oracle cases; failures: {len(FAILS)}")
 sys.exit(1 if FAILS else 0)
